@@ -277,11 +277,13 @@ def run(ctx, report: Report) -> None:
     from .sem import iframe_policy
     from ..interp import Obj as _Obj
     from ..tables import el_obj
+    from ..tables import build_tree as _bt
+    _doc, _order, _lab = _bt([('html', {}, [('iframe', {}, [('a', {}, []), ('b', {'_label': 'e'}, []), ('c', {}, [])])])])
     iframe_policy(ctx, r4, 'css_match.CSSMatch.match_nth',
-                  lambda: [el_obj('e'), (_Obj(_name='SelectorNth', a=1, n=False, b=1, of_type=False, last=False,
+                  lambda: [_lab['e'], (_Obj(_name='SelectorNth', a=2, n=True, b=1, of_type=False, last=False,
                                               selectors=_Obj(_name='SelectorList', __bool__=False, __len__=0, __iter__=[])),)],
                   lambda html, restrict: False,
-                  'An+B counts the element among ALL element children of its parent (an iframe element is an ordinary parent)')
+                  'An+B counts the element among ALL element children of its parent (an iframe element is an ordinary parent)', required=False)
     # plain :nth-child(An+B) counts every element sibling: its implicit "of S" is the namespace-wildcard universal selector
     dflt = None
     for st in src.mod('css_parser').tree.body:
@@ -322,3 +324,11 @@ def run(ctx, report: Report) -> None:
         if f not in read:
             r4.violation(f'css_match.CSSMatch.match_nth field {f}', mod.where(fn),
                          f'SelectorNth.{f} is never read by match_nth: that part of the An+B record is ignored')
+
+    from .sem import children_table
+    children_table(ctx, r4)
+
+    from .sem import nth_bounded_table
+    nth_bounded_table(ctx, r1)
+
+
